@@ -146,6 +146,23 @@ XmppSocket::XmppSocket(QObject *parent)
 {
 }
 
+// Returns how many bytes at the end of data belong to a UTF-8 character whose remaining bytes
+// are still missing.
+static int incompleteUtf8TailLength(const QByteArray &data)
+{
+    const int size = data.size();
+    for (int back = 1; back <= 3 && back <= size; ++back) {
+        const auto byte = static_cast<unsigned char>(data.at(size - back));
+        if ((byte & 0xC0) == 0x80) {
+            // continuation byte: look for the lead byte
+            continue;
+        }
+        const int length = (byte & 0xE0) == 0xC0 ? 2 : ((byte & 0xF0) == 0xE0 ? 3 : ((byte & 0xF8) == 0xF0 ? 4 : 1));
+        return length > back ? back : 0;
+    }
+    return 0;
+}
+
 void XmppSocket::setSocket(QSslSocket *socket)
 {
     m_socket = socket;
@@ -161,6 +178,7 @@ void XmppSocket::setSocket(QSslSocket *socket)
         // do not emit started() with direct TLS (this happens in encrypted())
         if (!m_directTls) {
             m_dataBuffer.clear();
+            m_incompleteCharacter.clear();
             m_streamOpenElement.clear();
             Q_EMIT started();
         }
@@ -169,6 +187,7 @@ void XmppSocket::setSocket(QSslSocket *socket)
         debug(u"Socket encrypted"_s);
         // this happens with direct TLS or STARTTLS
         m_dataBuffer.clear();
+        m_incompleteCharacter.clear();
         m_streamOpenElement.clear();
         Q_EMIT started();
     });
@@ -176,7 +195,15 @@ void XmppSocket::setSocket(QSslSocket *socket)
         warning(u"Socket error: "_s + m_socket->errorString());
     });
     QObject::connect(socket, &QSslSocket::readyRead, this, [this]() {
-        processData(QString::fromUtf8(m_socket->readAll()));
+        // a read may end in the middle of a multi-byte UTF-8 character: keep its first bytes
+        // until the rest has arrived instead of decoding them to replacement characters
+        QByteArray data = m_incompleteCharacter + m_socket->readAll();
+        const auto tail = incompleteUtf8TailLength(data);
+        m_incompleteCharacter = data.right(tail);
+        data.chop(tail);
+        if (!data.isEmpty()) {
+            processData(QString::fromUtf8(data));
+        }
     });
 }
 
